@@ -12,6 +12,9 @@
    A branch head is dereferenced (elements[head + h]), so it must lie in 0..Len(els)-1.
    The only absolute jump the compiler emits is `return` (_next = -1, the runtime's "finished"
    convention); an absolute target must be -1 or lie in 0..Len(els).
+   No source-level construct may survive compilation: an element whose type is label / checkpoint /
+   goto / any / when (they compile to jump / branch elements) or that still carries a nested block
+   (then / else / do / any / branches) is reported as "unexpanded".
    One verdict per flow is printed as JSON.                                                      *)
 EXTENDS Sequences, Integers, TLC, Json, IOUtils
 
@@ -37,11 +40,15 @@ BadHeads(els) ==
           /\ j2 <= Len(els[i2].heads)
           /\ (i2 - 1 + els[i2].heads[j2]) \notin 0..(Len(els) - 1)}}
 
-Closed(els) == BadOffsets(els) = {} /\ BadHeads(els) = {}
+SourceOnly == {"label", "checkpoint", "goto", "any", "when", "else when"}
+Unexpanded(els) ==
+  {[i |-> i - 1, kind |-> "unexpanded", off |-> 0, target |-> i - 1] : i \in {i2 \in 1..Len(els) : els[i2].t \in SourceOnly \/ els[i2].nested}}
+
+Closed(els) == BadOffsets(els) = {} /\ BadHeads(els) = {} /\ Unexpanded(els) = {}
 
 VARIABLE k
 Init == k \in 1..Len(Data)
 Spec == Init /\ [][UNCHANGED k]_k
 Verdict == LET f == Data[k] IN
-  PrintT(ToJson([k |-> k, ok |-> Closed(f.els), n |-> Len(f.els), bad |-> BadOffsets(f.els) \cup BadHeads(f.els)]))
+  PrintT(ToJson([k |-> k, ok |-> Closed(f.els), n |-> Len(f.els), bad |-> BadOffsets(f.els) \cup BadHeads(f.els) \cup Unexpanded(f.els)]))
 =============================================================================
